@@ -10,7 +10,7 @@ import (
 )
 
 func init() {
-	probeNames["C08"] = []string{"fault_in_commit", "fault_in_data_write", "fault_in_header_write", "fault_in_first_sync", "fault_in_final_sync", "fault_outside_commit", "fault_during_open", "commit_failed", "commit_ok", "liveness_checked", "liveness_second_attempt", "durability_checked", "final_state_is_later_attempt", "short_write", "burst_spans_transactions", "reopen_with_maxsize_update"}
+	probeNames["C08"] = []string{"fault_in_commit", "fault_in_data_write", "fault_in_header_write", "fault_in_first_sync", "fault_in_final_sync", "fault_outside_commit", "fault_during_open", "commit_failed", "commit_ok", "liveness_checked", "liveness_second_attempt", "durability_checked", "final_state_is_later_attempt", "short_write", "burst_spans_transactions", "reopen_with_maxsize_update", "shrink_release_under_fault"}
 	register(&PropDef{
 		ID: "C08", Level: "fault_enumeration", QuickSec: 55, ThoroSec: 1200,
 		Rule: "each run = one seeded txops history (<=10 transactions, incl. reopen) with a fault plan aimed at the I/O calls a fault-free dry run of the same seed performs: kind in {write error before effect, short write then error, sync error, truncate error, size error, mmap error, read error at open} x call index x burst in {1,2,3,until end of transaction}; a fault-free configuration of every seed runs first with the strict oracle. Oracles: no panic, no hang (scheduler deadlock detection), after every transaction a fresh read transaction sees exactly the last successfully committed model state, a commit that reported success is durable (durable-only image reopens to it), a commit during which one of its writes/syncs failed does not report success, once faults stopped a write transaction commits within 2 attempts, and after clean close+reopen the state is the last committed one or the complete state of a later attempt whose header write was issued. Non-trivial = at least one fault actually fired inside a transaction or an open; distinct = op list + fault plan + config + schedule hash.",
@@ -82,6 +82,29 @@ func c08Body(e *Env) {
 		cfg.Variant = rng.Intn(4) // 0: open-time faults too
 		c.Cfg = &cfg
 	}
+	if c.Tasks == nil && c.Cfg.Variant == 3 && rng.Intn(2) == 0 {
+		// targeted scenario: a shrinking open whose release transaction (free tail
+		// region straddling the new limit) is hit by an I/O fault, then more work
+		c.Cfg.Variant = 7
+		c.Cfg.PageSize = 1024
+		c.Cfg.MaxSize = []int{128, 192, 256}[rng.Intn(3)] << 10
+		c.Cfg.InitMeta = []int{0, 4}[rng.Intn(2)]
+		c.Cfg.Prealloc = false
+		maxPages := c.Cfg.MaxSize / 1024
+		used := maxPages*3/4 + rng.Intn(maxPages/8)
+		tail := used - maxPages/2 + 2 + rng.Intn(maxPages/8)
+		ops := []Op{{K: "begin"}}
+		for left := used; left > 0; left -= 60 {
+			ops = append(ops, Op{K: "allocn", A: min(left, 60)})
+		}
+		ops = append(ops, Op{K: "setfull", A: 0}, Op{K: "setfull", A: 1}, Op{K: "commit"}, Op{K: "begin"}, Op{K: "freetail", A: tail}, Op{K: "commit"}, Op{K: "reopen"})
+		for i := 0; i < 3; i++ {
+			ops = append(ops, Op{K: "begin"}, Op{K: "allocn", A: 10 + rng.Intn(30)}, Op{K: "setfull", A: rng.Intn(1 << 16)}, Op{K: "commit"})
+		}
+		ops = append(ops, Op{K: "reopen"}, Op{K: "begin"}, Op{K: "allocn", A: 5}, Op{K: "commit"})
+		c.Tasks = map[string][]Op{"main": ops}
+		c.Faults = []simdisk.Fault{} // armed at the reopen, see below
+	}
 	cfg := *c.Cfg
 	var explicit []Op
 	if c.Tasks != nil {
@@ -93,7 +116,7 @@ func c08Body(e *Env) {
 
 	// 1. fault-free dry run with the strict oracle
 	var calls [8]int
-	if c.Faults == nil && !c.Explicit {
+	if c.Faults == nil && !c.Explicit && c.Cfg.Variant != 7 {
 		d0 := e.NewDisk("dry")
 		r0 := NewRunner(e, d0, cfg)
 		if err := r0.Open(); err != nil {
@@ -252,6 +275,7 @@ func c08Body(e *Env) {
 	// without faults), then the file shows the last committed state or the
 	// complete state of a later attempt whose header write was issued
 	reopenRng := e.Rng("c08reopen")
+	shrunk := false
 	reopen := func(final bool) {
 		var err error
 		e.Guard("C08", "File.Close", func() { err = r.E.CloseFile(r.F) })
@@ -277,7 +301,20 @@ func c08Body(e *Env) {
 		// some reopens also change the maximum size (internal transactions at open time)
 		opts := r.Options()
 		newMax := 0
-		if r.Cfg.MaxSize > 0 && reopenRng.Intn(5) == 0 {
+		if cfg.Variant == 7 && !shrunk {
+			shrunk = true
+			newMax = r.Cfg.MaxSize / 2
+			opts.Flags |= txfile.FlagUpdMaxSize
+			opts.MaxSize = uint64(newMax)
+			opts.InitMetaArea = 0
+			what += fmt.Sprintf(" with FlagUpdMaxSize (max size %d -> %d) and a fault aimed at the open-time transactions", r.Cfg.MaxSize, newMax)
+			e.Probe("shrink_release_under_fault")
+			if len(c.Faults) == 0 {
+				k := []simdisk.FaultKind{simdisk.FWriteErr, simdisk.FWriteShort, simdisk.FSyncErr}[reopenRng.Intn(3)]
+				c.Faults = []simdisk.Fault{{Kind: k, Nth: reopenRng.Intn(6), Burst: 1}}
+			}
+			d.SetFaults(c.Faults)
+		} else if r.Cfg.MaxSize > 0 && reopenRng.Intn(5) == 0 {
 			newMax = r.Cfg.MaxSize + 64<<10
 			if reopenRng.Intn(2) == 0 && r.Cfg.MaxSize >= 128<<10 {
 				newMax = r.Cfg.MaxSize / 2 / r.Cfg.PageSize * r.Cfg.PageSize // shrink: runs the release transaction
@@ -362,7 +399,9 @@ func c08Body(e *Env) {
 		}
 	}
 	r.ReopenFn = func() { reopen(false) }
-	d.SetFaults(c.Faults)
+	if cfg.Variant != 7 { // variant 7 arms its fault at the shrinking reopen
+		d.SetFaults(c.Faults)
+	}
 	g := NewGen(r, e.Rng("ops"), cfg.Mix)
 	burstSpan := 0
 	runHistory(e, r, g, explicit, cfg.NTx, "C08", func(op Op) {
